@@ -118,7 +118,7 @@ register('C03', [
     'writer environment: format_time is an injective stub (times are compared as numbers), CoordIndex maps index <-> Location::Reference, get_job_tag answers None, parking 0, no reserved times; Dimensions carry Demand<MultiDimLoad> as the pragmatic reader stores it',
     'vehicle cost rates are concrete pairwise-different vectors (the cost is linear in them); the driver has zero costs (the pragmatic format has no driver costs)',
 ], [
-    'RFC3339 formatting and JSON serialisation, the one-unit rounding of non-integer values (inputs are integer-valued), place tags for offset time spans and for more than two places (get_job_tag is decided separately for two places with absolute windows and stubbed inside create_tour), reloads / vehicle breaks written by break_writer.rs, clustering (commute, parking), stops shared by several activities at one location in whole-tour obligations (covered only by the single step), haversine routing approximation',
+    'RFC3339 formatting and JSON serialisation, the one-unit rounding of non-integer values (inputs are integer-valued), place tags for offset time spans and for more than two places (get_job_tag is decided separately for two places with absolute windows and stubbed inside create_tour), reserved-time breaks written by break_writer.rs, clustering (commute, parking); tours with more than one reload or more than one break, stops shared by several activities at one location in whole-tour obligations (covered only by the single step), haversine routing approximation',
 ])
 register('C12', [
     'kernel-level claim on three of the six rule groups of the checker (vehicle load assignment, limits, routing/statistics): the rule functions are executed from the MIR of vrp-pragmatic linked with vrp-core',
